@@ -21,7 +21,7 @@ LEVEL = 'exploration'
 TECHNIQUE = 'exhaustive derivations with unique marker words at every nesting position x option product, presence/absence oracle from the derivation'
 
 PROFILES = {
-    'quick': [dict(ctx='C', size=2, cmax=99, d=0), dict(ctx='C', size=3, cmax=0, d=0)],
+    'quick': [dict(ctx='C', size=2, cmax=99, d=0), dict(ctx='C', size=2, cmax=0, d=1), dict(ctx='C', size=3, cmax=0, d=0)],
     'thorough': [dict(ctx='C', size=2, cmax=99, d=1), dict(ctx='C', size=3, cmax=1, d=0)],
 }
 MM = ['text', 'with-delimiters', 'verbatim', 'remove']
@@ -234,7 +234,8 @@ def run_shard(shard, tier, acc):
     p = PROFILES[tier][pi]
     for items in docgen.iter_doc_slice(p, k):
         base = docgen.render(items, 'C')
-        for dv in docgen.deviation_vectors(base.nb, p['d']):
+        # one more deviation kind here: a line that ends in a blank (matters for verbatim reproduction of formula sources)
+        for dv in docgen.deviation_vectors(base.nb, p['d'], kinds=docgen.DEVIATIONS + [' \n']):
             check_items(items, dv, acc)
         acc.sample(dict(s=base.text))
 
